@@ -110,8 +110,12 @@ def oracle(c, A, b, minimize):
     return solve(c, A, b, minimize)
 
 
-def eval_simplex(c, A, b, minimize, opts, orc):
-    """-> (list of (obligation, detail), status name or 'EXC')."""
+def eval_simplex(c, A, b, minimize, opts, orc, rel=False):
+    """-> (list of (obligation, detail), status name or 'EXC').
+    rel=True (structured family only, checks/C03_round3.py): the LPs there have solutions of size 1e5 .. 1e12 from data <= 10, so
+    'within tolerance' is read relative to the size of the quantities that are compared: tau_q = 1e-6 * (1 + max(max|data|, S_q))
+    with S_q = sum_j |a_ij x_j| for row i, max|x_j| for non-negativity, sum_j |c_j x_j| for objective = c.x and sum_j |c_j x*_j|
+    for objective = OPT (x* the oracle's optimal vertex).  Where the solution is no larger than the data this is the plain tau."""
     from solvor.simplex import solve_lp
     from solvor.types import Status
     pre = PB if "max_iter" in opts else P
@@ -136,20 +140,38 @@ def eval_simplex(c, A, b, minimize, opts, orc):
     bad = []
     if name == "OPTIMAL":
         data = [abs(_fr(v)) for v in c] + [abs(_fr(v)) for row in A for v in row] + [abs(_fr(v)) for v in b]
-        tau = Fraction(1, 10**6) * (1 + max(data))
+        dmax = max(data)
+        tau = Fraction(1, 10**6) * (1 + dmax)
+
+        def tau_of(scale):
+            return Fraction(1, 10**6) * (1 + max(dmax, scale)) if rel else tau
+
         x = _finite_point(r.solution, n)
         if x is None or not _finite(r.objective):
             return [(f"{pre}/ensures:point-feasible", f"OPTIMAL with a non-finite / malformed answer x={r.solution} objective={r.objective}")], name
-        ex, wi, mn = _feas_excess(c, A, b, x)
-        if ex > tau:
-            bad.append((f"{pre}/ensures:point-feasible", f"x={r.solution}: row {wi} exceeds b by {float(ex):.3g} > tau={float(tau):.3g}; true optimum {orc['objective']}"))
-        if mn < -tau:
+        if rel:
+            worst = None
+            for i, row in enumerate(A):
+                e = sum((_fr(a) * v for a, v in zip(row, x)), Fraction(0)) - _fr(b[i])
+                t = tau_of(sum((abs(_fr(a) * v) for a, v in zip(row, x)), Fraction(0)))
+                if e > t and (worst is None or e / t > worst[0]):
+                    worst = (e / t, i, e, t)
+            if worst:
+                bad.append((f"{pre}/ensures:point-feasible", f"x={r.solution}: row {worst[1]} exceeds b by {float(worst[2]):.3g} > tau_row={float(worst[3]):.3g}; true optimum {orc['objective']}"))
+            mn = min(x)
+            tx = tau_of(max(abs(v) for v in x))
+        else:
+            ex, wi, mn = _feas_excess(c, A, b, x)
+            if ex > tau:
+                bad.append((f"{pre}/ensures:point-feasible", f"x={r.solution}: row {wi} exceeds b by {float(ex):.3g} > tau={float(tau):.3g}; true optimum {orc['objective']}"))
+            tx = tau
+        if mn < -tx:
             bad.append((f"{pre}/ensures:point-feasible", f"x={r.solution} has a coordinate {float(mn):.3g} < -tau"))
         cx = sum((_fr(a) * v for a, v in zip(c, x)), Fraction(0))
         obj = Fraction(r.objective)
-        if abs(obj - cx) > tau:
+        if abs(obj - cx) > tau_of(sum((abs(_fr(a) * v) for a, v in zip(c, x)), Fraction(0))):
             bad.append((f"{pre}/ensures:objective=c.x", f"objective={r.objective} but c.x={float(cx)} at x={r.solution}"))
-        if abs(obj - orc["objective"]) > tau:
+        if abs(obj - orc["objective"]) > tau_of(sum((abs(_fr(a) * v) for a, v in zip(c, orc["x"])), Fraction(0))):
             bad.append((f"{pre}/ensures:objective=OPT", f"objective={r.objective} but the true optimum is {orc['objective']} (x={r.solution}, x*={[str(v) for v in orc['x']]})"))
     return bad, name
 
@@ -929,7 +951,7 @@ def run_case(c, A, b, minimize, s_opts, i_opts):
 
 def work(chunk):
     """chunk = ('exh', n, m, [(idx, minimize, do_interior)...]) or ('cases', [(c, A, b, minimize, s_opts, i_opts)...])
-    or ('ladder' | 'rexact' | 'history' | 'numeric', [spec...]) - those build their inputs from the spec's seed in the worker."""
+    or ('ladder' | 'rexact' | 'history' | 'numeric' | 'struct', [spec...]) - those build their inputs from the spec in the worker."""
     use_repo()
     viol, cnt, nts, n_eval = [], Counter(), [], 0
     if chunk[0] == "exh":
@@ -945,6 +967,9 @@ def work(chunk):
         it = (run_history(sp) for sp in chunk[1])
     elif chunk[0] == "numeric":
         it = (r for sp in chunk[1] for r in run_numeric(sp))
+    elif chunk[0] == "struct":
+        from checks import C03_round3
+        it = (C03_round3.run_struct(sp) for sp in chunk[1])
     else:
         raise ValueError(chunk[0])
     for v, k, nt, ne in it:
@@ -1099,7 +1124,10 @@ def run(ctx: Ctx):
     big.sort(key=lambda t: -t[0])
     hist_tasks = [("history", ch) for ch in _chunks([h for h in hspecs if h["mode"] == "planted"], 2)] + \
                  [("history", ch) for ch in _chunks([h for h in hspecs if h["mode"] == "small"], 10)]
-    tasks = [t for _, t in big] + hist_tasks + tasks + [("numeric", [sp]) for sp in nspecs]
+    from checks import C03_round3
+    sspecs = C03_round3.struct_specs(ctx.seed, q)
+    struct_tasks = [t for _, t in pack("struct", sspecs, C03_round3.spec_cost, 1.0 if q else 4.0)]
+    tasks = [t for _, t in big] + hist_tasks + struct_tasks + tasks + [("numeric", [sp]) for sp in nspecs]
     by_T = Counter((sp["T"], "solve_lp+interior" if sp["interior"] else "solve_lp") for sp in lspecs)
     ctx.scope("size ladder: planted LPs (verdict by construction, certificate checked in Fractions)",
               runs=len(lspecs), n_plus_m={f"~{T} ({fn})": v for (T, fn), v in sorted(by_T.items())},
@@ -1117,6 +1145,16 @@ def run(ctx: Ctx):
     ctx.scope("dyadic numerics on small structured LPs (exact oracle)", runs=NUM, gaps="2^-p, p in %s, added to b (relaxing) and to the minimised cost (raising)" % (GAPS,),
               scalings="c or b by 2^k (|k| <= 10), single rows / columns by 2^k (|k| <= 6)", solve_lp_interior_share=NUM_PI, exhaustive=False)
 
+    ctx.scope("structured LPs (growth chains, Klee-Minty, staircase, transportation, assignment, wedges; exact oracle)", runs=len(sspecs),
+              families=dict(Counter(sp["fam"] for sp in sspecs)), transforms=dict(Counter(t for sp in sspecs for t in sp.get("tf", ()))),
+              sense_flipped=sum(1 for sp in sspecs if sp.get("as_min")),
+              chain="x_1 <= b1, x_{k+1} - f x_k <= step; f in %s; K per f: %s; b1, step in {0,1}; side profits %s; objective %s; chain weight 1 or 10; "
+                    "phase-1 row %s; a share without the first row" % (sorted(C03_round3.CHAIN_K), {f: list(Ks) for f, Ks in C03_round3.CHAIN_K.items()},
+                                                                       [[p for p, _ in sd] for sd in C03_round3.SIDES], list(C03_round3.OBJS), list(C03_round3.REQS)),
+              chain_grid="quick: seeded sample of the grid below tableau growth 1e5 (most of it at 1e3..1e5) + a fixed core at the last rungs below 1e5 "
+                         "+ a few above; thorough: the whole grid below 1e5 + 2500 above",
+              tag="obligation suffix%r when tableau_growth(c, A, b) >= 1e5 (decided from the data alone)" % C03_round3.ILL, exhaustive=False)
+
     results = pmap(work, tasks, chunksize=1)
     cnt = Counter()
     n_eval = 0
@@ -1127,7 +1165,8 @@ def run(ctx: Ctx):
         n_eval += ne
         nts.update(nt)
         allv.extend(viol)
-    allv.sort(key=lambda v: (_case_size(v[1]), repr(v[1])))  # smallest inputs first: those become the replay files
+    # violations outside the two recorded input classes first, then smallest inputs first: those become the replay files
+    allv.sort(key=lambda v: (v[0].endswith(LARGE) or v[0].endswith(C03_round3.ILL), _case_size(v[1]), repr(v[1])))
     smallest = {}
     for ob, case, det in allv:
         smallest.setdefault(ob + ("" if case.get("opts") else " [default options]"), {"case": case, "detail": det})
@@ -1148,6 +1187,12 @@ def run(ctx: Ctx):
         for f in ("n+m>=64", "neg-rhs/phase1", ">=80%-zero-rhs"):
             if not cnt.get(f"feature:{fam}:{f}"):
                 ctx.defects.append(f"{fam}: feature {f} never occurred")
+    for f in ("family:chain", "family:km-small", "family:km-classic", "family:staircase", "family:transport", "family:assignment", "family:wedge",
+              "truth:optimal", "truth:infeasible", "truth:unbounded", "transform:perm", "transform:dual", "transform:dup", "transform:sense-flipped",
+              "neg-rhs/phase1", "growth 1e3..1e5", "growth>=1e5 (tagged)", "optimal-dual>=1000*max|data|", "untagged:dual>=1000*max|data|",
+              "untagged:cost-ratio>=1000"):
+        if not cnt.get("feature:structured:" + f):
+            ctx.defects.append(f"structured: feature {f} never occurred")
     if not cnt.get("feature:ladder:n+m>=128"):
         ctx.defects.append("ladder: no LP with n+m >= 128")
     if not cnt.get("history:identical-to-fresh-process") and not cnt.get("history:differs-from-fresh-process"):
@@ -1174,7 +1219,8 @@ def run(ctx: Ctx):
                 "oracle; history = sequences of calls on one set of list objects rewritten in place, one evaluation per call (+1 per "
                 "fresh-process comparison); numerics = gen_case LPs rescaled by powers of two / shifted by dyadic gaps. For those families "
                 "non-trivial is decided from the data by the equivalent rule (some b_i < 0 or some cost coefficient improving at x = 0) and "
-                "distinct is by SHA-1 of (minimize, c, A, b)")
+                "distinct is by SHA-1 of (minimize, c, A, b). Round 3: structured = the spec dict in the case (family + parameters + "
+                "transforms) rebuilt by checks/C03_round3.build, truth by the exact oracle, same non-trivial / distinct rule")
     ctx.assumptions += [
         "domain: m >= 1, n >= 1, finite int/float data (check_matrix_dims rejects an empty A); default eps of both solvers",
         "tau = 1e-6*(1+max|data|) for solve_lp; tau' = 10*eps*(n+m+||x*||+||y*||)+1e-9 for solve_lp_interior OPTIMAL (DESIGN C03); "
@@ -1191,6 +1237,19 @@ def run(ctx: Ctx):
         "outside 'well-scaled LPs (integer or small rational data)'",
         "history: a verdict that differs between this process and a fresh interpreter is filed under ensures:verdict-is-a-function-of-the-LP "
         "(a consequence of the three 'exactly when' clauses); bitwise differences that stay within tau are only counted",
+    ]
+    ctx.assumptions += [
+        "structured family: an input with tableau_growth(c, A, b) = basis_growth(A) * max(1, max|c|, max|b|) >= 1e5 (largest product of coefficient "
+        "ratios along a simple path of rows that bound one variable by multiples of others - read off the data, invariant under permutation and row "
+        "scaling; = f^(K-1) on a growth chain and on its dual) is 'ill-conditioned by construction': its violations carry the obligation suffix"
+        + repr(C03_round3.ILL) + " (class-level finding: the solver's absolute eps = 1e-10 is reached by rounding noise of size growth * 2^-52 * (a few); "
+        "the unchanged tree gives wrong verdicts from growth 1.7e5 on and none on 120 000 chain LPs below 1e5). What this gives up: a NEW defect that only "
+        "shows at growth >= 1e5 is not told apart from the recorded class. The tag is applied on the structured family only; every other family is "
+        "judged untagged as before",
+        "structured family: tolerances relative to the size of the compared quantities, tau_q = 1e-6 * (1 + max(max|data|, S_q)), S_q = sum_j |a_ij x_j| "
+        "(row i), max|x_j| (non-negativity), sum_j |c_j x_j| (objective = c.x), sum_j |c_j x*_j| (objective = OPT): the solutions reach 1e5 .. 1e12 "
+        "from data <= 10 there, and growth * 2^-53 relative error is what double precision delivers; where |x| <= max|data| this is the plain tau. "
+        "solve_lp_interior is not run on this family (it never answers OPTIMAL there, so its clauses would be vacuous)",
     ]
     ctx.trusted += [
         "oracles/lp_exact.py: check_certificate (weak duality / Farkas / recession ray in Fraction arithmetic); the Fraction simplex that "
@@ -1226,7 +1285,14 @@ def replay(rec) -> int:
         how = "exact simplex"
     print(f"replay {case['fn']}({'min' if mn else 'max'} c={_short(c)} A={_short(A)} b={_short(b)} opts={opts}) family={case.get('family', 'small-scope')} "
           f"gen={case.get('gen')}; oracle ({how}): {orc['status']} objective={orc['objective']} certificate={_short(_cert_str(orc), 600)}")
-    bad, st = (eval_simplex if case["fn"] == "solve_lp" else eval_interior)(c, A, b, mn, opts, orc)
+    if case["fn"] == "solve_lp":
+        bad, st = eval_simplex(c, A, b, mn, opts, orc, bool(case.get("rel")))
+        if case.get("family") == "structured":
+            from checks import C03_round3
+            g = C03_round3.tableau_growth(c, A, b)
+            print(f"tableau growth of the input: {float(g):.4g} -> obligation suffix {(shape_tag(len(c), len(b)) + C03_round3.cond_tag(c, A, b))!r}")
+    else:
+        bad, st = eval_interior(c, A, b, mn, opts, orc)
     print("solver status:", st)
     for ob, det in bad:
         print("  violated:", ob, "::", _short(det, 1200))
